@@ -130,106 +130,113 @@ func c03Check(c c03Case) [][2]string {
 		if !ifi.Advertise {
 			continue
 		}
-		st := c03State
-		st.Clock = c.Clock
-		ref.Inject(&ifi, &st, c02Epoch)
-		var ra *ndp.RouterAdvertisement
-		func() {
-			defer func() { pv = recover() }()
-			ra, _, err = ifi.RouterAdvertisement(true)
-		}()
-		if pv != nil {
-			add("C03:build-panic", fmt.Sprint(pv))
-			continue
-		}
-		if err != nil {
-			// The quantifier is over system states for which generation succeeds.
-			continue
-		}
-		b, err := ndp.MarshalMessage(ra)
-		if err != nil {
-			add("C03:unencodable:"+c02Norm(err.Error()), fmt.Sprintf("accepted configuration yields an RA the encoder refuses: %v", err))
-			continue
-		}
-		m, err := ndp.ParseMessage(b)
-		if err != nil {
-			add("C03:undecodable:"+c02Norm(err.Error()), fmt.Sprintf("encoded RA does not decode: %v", err))
-			continue
-		}
-		got, ok := m.(*ndp.RouterAdvertisement)
-		if !ok {
-			add("C03:not-an-ra", fmt.Sprintf("decoded %T", m))
-			continue
-		}
-		const s, ms = time.Second, time.Millisecond
-		max16, max32s, max32ms := 65535*s, ndp.Infinity, time.Duration(0xffffffff)*ms
-		add(c03Field("router_lifetime", ra.RouterLifetime, got.RouterLifetime, s, max16))
-		add(c03Field("reachable_time", ra.ReachableTime, got.ReachableTime, ms, max32ms))
-		add(c03Field("retransmit_timer", ra.RetransmitTimer, got.RetransmitTimer, ms, max32ms))
-		if ra.CurrentHopLimit != got.CurrentHopLimit || ra.ManagedConfiguration != got.ManagedConfiguration ||
-			ra.OtherConfiguration != got.OtherConfiguration || ra.RouterSelectionPreference != got.RouterSelectionPreference {
-			add("C03:changed:header", fmt.Sprintf("header %+v decodes as %+v", ra, got))
-		}
-		if len(ra.Options) != len(got.Options) {
-			add("C03:changed:option-count", fmt.Sprintf("%d options built, %d decoded", len(ra.Options), len(got.Options)))
-			continue
-		}
-		for i, o := range ra.Options {
-			g := got.Options[i]
-			if fmt.Sprintf("%T", o) != fmt.Sprintf("%T", g) {
-				add("C03:changed:option-type", fmt.Sprintf("option %d: %T decodes as %T", i, o, g))
+		for _, mac := range []string{c03State.MAC, ""} {
+			// Bound to the system the way the daemon does it (real Prepare), on a link with
+			// and on one without a hardware address (tunnels, point-to-point links).
+			st := c03State
+			st.Clock, st.MAC = c.Clock, mac
+			if err := ref.Prepare(&ifi, &st, c02Epoch); err != nil {
+				add("C03:prepare", err.Error())
 				continue
 			}
-			switch o := o.(type) {
-			case *ndp.PrefixInformation:
-				g := g.(*ndp.PrefixInformation)
-				add(c03Field("prefix.valid_lifetime", o.ValidLifetime, g.ValidLifetime, s, max32s))
-				add(c03Field("prefix.preferred_lifetime", o.PreferredLifetime, g.PreferredLifetime, s, max32s))
-				if o.Prefix != g.Prefix || o.PrefixLength != g.PrefixLength || o.OnLink != g.OnLink || o.AutonomousAddressConfiguration != g.AutonomousAddressConfiguration {
-					add("C03:changed:prefix", fmt.Sprintf("%+v decodes as %+v", o, g))
+			var ra *ndp.RouterAdvertisement
+			func() {
+				defer func() { pv = recover() }()
+				ra, _, err = ifi.RouterAdvertisement(true)
+			}()
+			if pv != nil {
+				add("C03:build-panic", fmt.Sprint(pv))
+				continue
+			}
+			if err != nil {
+				// The quantifier is over system states for which generation succeeds.
+				continue
+			}
+			b, err := ndp.MarshalMessage(ra)
+			if err != nil {
+				add("C03:unencodable:"+c02Norm(err.Error()), fmt.Sprintf("accepted configuration yields an RA the encoder refuses: %v", err))
+				continue
+			}
+			m, err := ndp.ParseMessage(b)
+			if err != nil {
+				add("C03:undecodable:"+c02Norm(err.Error()), fmt.Sprintf("encoded RA does not decode: %v", err))
+				continue
+			}
+			got, ok := m.(*ndp.RouterAdvertisement)
+			if !ok {
+				add("C03:not-an-ra", fmt.Sprintf("decoded %T", m))
+				continue
+			}
+			const s, ms = time.Second, time.Millisecond
+			max16, max32s, max32ms := 65535*s, ndp.Infinity, time.Duration(0xffffffff)*ms
+			add(c03Field("router_lifetime", ra.RouterLifetime, got.RouterLifetime, s, max16))
+			add(c03Field("reachable_time", ra.ReachableTime, got.ReachableTime, ms, max32ms))
+			add(c03Field("retransmit_timer", ra.RetransmitTimer, got.RetransmitTimer, ms, max32ms))
+			if ra.CurrentHopLimit != got.CurrentHopLimit || ra.ManagedConfiguration != got.ManagedConfiguration ||
+				ra.OtherConfiguration != got.OtherConfiguration || ra.RouterSelectionPreference != got.RouterSelectionPreference {
+				add("C03:changed:header", fmt.Sprintf("header %+v decodes as %+v", ra, got))
+			}
+			if len(ra.Options) != len(got.Options) {
+				add("C03:changed:option-count", fmt.Sprintf("%d options built, %d decoded", len(ra.Options), len(got.Options)))
+				continue
+			}
+			for i, o := range ra.Options {
+				g := got.Options[i]
+				if fmt.Sprintf("%T", o) != fmt.Sprintf("%T", g) {
+					add("C03:changed:option-type", fmt.Sprintf("option %d: %T decodes as %T", i, o, g))
+					continue
 				}
-			case *ndp.RouteInformation:
-				g := g.(*ndp.RouteInformation)
-				add(c03Field("route.lifetime", o.RouteLifetime, g.RouteLifetime, s, max32s))
-				if o.Prefix != g.Prefix || o.PrefixLength != g.PrefixLength || o.Preference != g.Preference {
-					add("C03:changed:route", fmt.Sprintf("%+v decodes as %+v", o, g))
+				switch o := o.(type) {
+				case *ndp.PrefixInformation:
+					g := g.(*ndp.PrefixInformation)
+					add(c03Field("prefix.valid_lifetime", o.ValidLifetime, g.ValidLifetime, s, max32s))
+					add(c03Field("prefix.preferred_lifetime", o.PreferredLifetime, g.PreferredLifetime, s, max32s))
+					if o.Prefix != g.Prefix || o.PrefixLength != g.PrefixLength || o.OnLink != g.OnLink || o.AutonomousAddressConfiguration != g.AutonomousAddressConfiguration {
+						add("C03:changed:prefix", fmt.Sprintf("%+v decodes as %+v", o, g))
+					}
+				case *ndp.RouteInformation:
+					g := g.(*ndp.RouteInformation)
+					add(c03Field("route.lifetime", o.RouteLifetime, g.RouteLifetime, s, max32s))
+					if o.Prefix != g.Prefix || o.PrefixLength != g.PrefixLength || o.Preference != g.Preference {
+						add("C03:changed:route", fmt.Sprintf("%+v decodes as %+v", o, g))
+					}
+				case *ndp.RecursiveDNSServer:
+					g := g.(*ndp.RecursiveDNSServer)
+					add(c03Field("rdnss.lifetime", o.Lifetime, g.Lifetime, s, max32s))
+					if fmt.Sprint(o.Servers) != fmt.Sprint(g.Servers) {
+						add("C03:changed:rdnss-servers", fmt.Sprintf("%v decodes as %v", o.Servers, g.Servers))
+					}
+				case *ndp.DNSSearchList:
+					g := g.(*ndp.DNSSearchList)
+					add(c03Field("dnssl.lifetime", o.Lifetime, g.Lifetime, s, max32s))
+					if fmt.Sprint(o.DomainNames) != fmt.Sprint(g.DomainNames) {
+						add("C03:changed:dnssl-names", fmt.Sprintf("%v decodes as %v", o.DomainNames, g.DomainNames))
+					}
+				case *ndp.MTU:
+					if o.MTU != g.(*ndp.MTU).MTU {
+						add("C03:changed:mtu", fmt.Sprintf("%d decodes as %d", o.MTU, g.(*ndp.MTU).MTU))
+					}
+				case *ndp.LinkLayerAddress:
+					g := g.(*ndp.LinkLayerAddress)
+					if o.Direction != g.Direction || o.Addr.String() != g.Addr.String() {
+						add("C03:changed:lla", fmt.Sprintf("%v decodes as %v", o, g))
+					}
+				case *ndp.CaptivePortal:
+					if o.URI != g.(*ndp.CaptivePortal).URI {
+						add("C03:changed:captive-portal", fmt.Sprintf("%q decodes as %q", o.URI, g.(*ndp.CaptivePortal).URI))
+					}
+				case *ndp.PREF64:
+					g := g.(*ndp.PREF64)
+					add(c03Field("pref64.lifetime", o.Lifetime, g.Lifetime, 8*s, 65528*s))
+					a := o.Prefix.Addr()
+					if !a.Is6() || a.Is4In6() {
+						add("C03:changed:pref64-not-ipv6", fmt.Sprintf("pref64 prefix %s is not IPv6; decodes as %s", o.Prefix, g.Prefix))
+					} else if o.Prefix.Masked() != g.Prefix {
+						add("C03:changed:pref64-prefix", fmt.Sprintf("pref64 prefix %s decodes as %s", o.Prefix, g.Prefix))
+					}
+				default:
+					add("C03:unknown-option", fmt.Sprintf("%T", o))
 				}
-			case *ndp.RecursiveDNSServer:
-				g := g.(*ndp.RecursiveDNSServer)
-				add(c03Field("rdnss.lifetime", o.Lifetime, g.Lifetime, s, max32s))
-				if fmt.Sprint(o.Servers) != fmt.Sprint(g.Servers) {
-					add("C03:changed:rdnss-servers", fmt.Sprintf("%v decodes as %v", o.Servers, g.Servers))
-				}
-			case *ndp.DNSSearchList:
-				g := g.(*ndp.DNSSearchList)
-				add(c03Field("dnssl.lifetime", o.Lifetime, g.Lifetime, s, max32s))
-				if fmt.Sprint(o.DomainNames) != fmt.Sprint(g.DomainNames) {
-					add("C03:changed:dnssl-names", fmt.Sprintf("%v decodes as %v", o.DomainNames, g.DomainNames))
-				}
-			case *ndp.MTU:
-				if o.MTU != g.(*ndp.MTU).MTU {
-					add("C03:changed:mtu", fmt.Sprintf("%d decodes as %d", o.MTU, g.(*ndp.MTU).MTU))
-				}
-			case *ndp.LinkLayerAddress:
-				g := g.(*ndp.LinkLayerAddress)
-				if o.Direction != g.Direction || o.Addr.String() != g.Addr.String() {
-					add("C03:changed:lla", fmt.Sprintf("%v decodes as %v", o, g))
-				}
-			case *ndp.CaptivePortal:
-				if o.URI != g.(*ndp.CaptivePortal).URI {
-					add("C03:changed:captive-portal", fmt.Sprintf("%q decodes as %q", o.URI, g.(*ndp.CaptivePortal).URI))
-				}
-			case *ndp.PREF64:
-				g := g.(*ndp.PREF64)
-				add(c03Field("pref64.lifetime", o.Lifetime, g.Lifetime, 8*s, 65528*s))
-				a := o.Prefix.Addr()
-				if !a.Is6() || a.Is4In6() {
-					add("C03:changed:pref64-not-ipv6", fmt.Sprintf("pref64 prefix %s is not IPv6; decodes as %s", o.Prefix, g.Prefix))
-				} else if o.Prefix.Masked() != g.Prefix {
-					add("C03:changed:pref64-prefix", fmt.Sprintf("pref64 prefix %s decodes as %s", o.Prefix, g.Prefix))
-				}
-			default:
-				add("C03:unknown-option", fmt.Sprintf("%T", o))
 			}
 		}
 	}
